@@ -119,7 +119,10 @@ class Mir:
         if k == "bin":
             if r["op"] == "AddWithOverflow" and self.op(r["b"], depth) == "0":
                 return self.op(r["a"], depth)      # enum discriminant constants are built as `D + 0`
-            return "%s(%s, %s)" % (r["op"], self.op(r["a"], depth), self.op(r["b"], depth))
+            a, b = self.op(r["a"], depth), self.op(r["b"], depth)
+            if r["op"] in ("Eq", "Ne") and ("::" in a or a[:1].isdigit() or a.startswith("'")) and not ("::" in b or b[:1].isdigit()):
+                a, b = b, a          # commutative comparison: variable first, constant second
+            return "%s(%s, %s)" % (r["op"], a, b)
         if k == "un":
             return "%s(%s)" % (r["op"], self.op(r["a"], depth))
         if k == "cast":
